@@ -174,7 +174,7 @@ pub fn run_c09(a: &Args) {
     let hi = Timestamp::MAX.as_nanosecond();
     let fracs: [i128; 12] = [0, 1, 10, 100, 1000, 123_000_000, 123_456_789, 999_999_999, 500_000_000, 100_000, 120_000_000, 999_000_000];
     let mut tss: Vec<Timestamp> = vec![Timestamp::MIN, Timestamp::MAX, Timestamp::UNIX_EPOCH];
-    for _ in 0..(if quick { 900 } else { 20_000 }) {
+    for _ in 0..(if quick { 900 } else { 120_000 }) {
         let secs = match rng.next() % 4 {
             0 => rng.range(-100_000, 100_000) as i128,
             1 => rng.range128(lo / 1_000_000_000 + 1, -62_135_596_800), // years <= 0
@@ -214,7 +214,7 @@ pub fn run_c09(a: &Args) {
         }
     }
     // the parser on texts of the grammar that the printer never produces
-    for i in 0..(if quick { 6000 } else { 200_000 }) {
+    for i in 0..(if quick { 6000 } else { 500_000 }) {
         out.emit(rd_text(&mut rng, i % 3 != 0));
     }
     out.finish();
